@@ -1333,6 +1333,12 @@ class Interp:
         if isinstance(fv, type):
             yield from self.construct(fv, args, kwargs, st, node)
             return
+        if isinstance(fv, types.FunctionType) and getattr(fv, '_uninterpreted', False):
+            zs = [zreal(a) for a in args]
+            f = self.ctx.uf(f'spec.{fv.__name__}', *([z3.RealSort()] * (len(zs) + 1)))
+            self.ctx.trusted[f'uninterpreted specification function {fv.__name__}'] += 0
+            yield SNum(f(*zs)), st
+            return
         if isinstance(fv, types.FunctionType) and getattr(fv, '_opaque', False) and not self.ctx.reveal_depth \
                 and not self.ctx.concrete_math:
             yield self.opaque_app(fv, args, kwargs, node), st
